@@ -28,10 +28,12 @@ PROPS = {
                     'distinct = distinct (class, argument values, channel)'},
     'C02': {'mc': _mc({'module': 'MC_Props', 'cfg': 'MC_Props', 'tier': 'both'}),
             'rule': 'one event per content-header round trip; quick: each of the 8192 presence subsets once + random'},
-    'C18': {'gen': s2c.gen_frames,
+    'C18': {'gen': s2c.combine(s2c.gen_frames, s2c.gen_conn),
             'mc': _mc({'module': 'MC_Frames', 'cfg': 'MC_Frames', 'tier': 'both'},
                       {'module': 'MC_Content', 'cfg': 'MC_Content_small', 'tier': 'quick', 'actions': ['Publish', 'Transmit', 'Heartbeat']},
-                      {'module': 'MC_Content', 'cfg': 'MC_Content', 'tier': 'thorough'}),
+                      {'module': 'MC_Content', 'cfg': 'MC_Content', 'tier': 'thorough'},
+                      {'module': 'MC_Conn', 'cfg': 'MC_Conn', 'tier': 'quick'}, {'module': 'MC_Conn', 'cfg': 'MC_Conn_deep', 'tier': 'thorough'},
+                      {'module': 'MC_Conn', 'cfg': 'MC_Conn_reach', 'tier': 'both', 'expect_violation': 'NoCompleteConversation'}),
             'rule': 'one event per body / heartbeat / protocol-header round trip; distinct = distinct (payload, channel)'},
     'C04': {'gen': s2c.combine(s2c.gen_values, s2c.gen_frames),
             'shards': lambda t: 16 if t == 'quick' else 48,
@@ -39,7 +41,10 @@ PROPS = {
             'rule': 'one event per encoder call (frame.marshal of all five kinds, Frame.marshal(), Properties.marshal(), '
                     'by_type, encode_table_value); every byte compared with the TLA+ reference encoder'},
     'C14': {'mc': _mc({'module': 'MC_Catalog', 'cfg': 'MC_Catalog', 'tier': 'both'},
-                      {'module': 'MC_Rpc', 'cfg': 'MC_Rpc', 'tier': 'both', 'actions': ['Request', 'Reply', 'Async']}),
+                      {'module': 'MC_Rpc', 'cfg': 'MC_Rpc', 'tier': 'both', 'actions': ['Request', 'Reply', 'Async']},
+                      {'module': 'MC_Conn', 'cfg': 'MC_Conn', 'tier': 'quick'}, {'module': 'MC_Conn', 'cfg': 'MC_Conn_deep', 'tier': 'thorough'},
+                      {'module': 'MC_Conn', 'cfg': 'MC_Conn_reach', 'tier': 'both', 'expect_violation': 'NoCompleteConversation'}),
+            'gen': s2c.gen_conn,
             'rule': 'exhaustive static trace: one event per class reachable through INDEX_MAPPING (64), one for '
                     'Basic.Properties, one per AMQP class, one for the key set; compared field by field with Catalog.tla',
             'exhaustive': True, 'shards': lambda t: 1},
@@ -59,7 +64,8 @@ PROPS = {
                     '(4096 code points each) over all of Unicode, crafted frames with refused values decoded'},
     'C19': {'mc': _mc({'module': 'MC_Catalog', 'cfg': 'MC_Catalog', 'tier': 'both'}),
             'rule': 'one Observe event per object (constructed, after setattr, decoded) for all 64 classes + Basic.Properties'},
-    'C20': {'rule': 'FrameParts on buffers of length 0..16, every value of each header byte, Peek on encoded frames + tails, '
+    'C20': {'gen': s2c.gen_conn,
+            'rule': 'FrameParts on buffers of length 0..16, every value of each header byte, Peek on encoded frames + tails, '
                     'stream sessions with the size-reading receiver walked by Stream.tla (Mode = peek)',
             'mc': _mc({'module': 'MC_Stream', 'cfg': 'MC_Stream_peek', 'tier': 'both', 'actions': ['Send', 'DoDeliver', 'PeekRead']},
                       {'module': 'MC_Stream', 'cfg': 'MC_Stream_peek3', 'tier': 'thorough'})},
@@ -79,7 +85,7 @@ PROPS = {
                     'frames followed by 14 kinds of tail; fuzz inputs for the envelope clause',
             'mc': _mc({'module': 'MC_Stream', 'cfg': 'MC_Stream', 'tier': 'both', 'actions': ['Send', 'DoDeliver', 'TryDecode']},
                       {'module': 'MC_Stream', 'cfg': 'MC_Stream_3', 'tier': 'thorough'}),
-            'gen': s2c.gen_stream},
+            'gen': s2c.combine(s2c.gen_stream, s2c.gen_conn)},
     'C10': {'gen': s2c.gen_values,
             'mc': _mc({'module': 'MC_Values', 'cfg': 'MC_Values', 'tier': 'quick'}, {'module': 'MC_Values', 'cfg': 'MC_Values_deep', 'tier': 'thorough'}),
             'rule': 'EncodeValue / EncodeArg / RoundTrip events with out-of-range, wrong-typed and boundary values at every '
